@@ -9,15 +9,15 @@ CFG = """SPECIFICATION %s
 CONSTANTS
   Palette <- Pal
   MaxAdd = %d  MaxSess = 2  MaxReq = %d  MaxTime = 3
-  CheckStart = %s  CheckIssue = %s  CheckPF = %s
+  CheckStart = %s  CheckIssue = %s  CheckPF = %s  MaxToggle = %d
 INVARIANTS %s
 CHECK_DEADLOCK FALSE
 """
-PROPS = "Justified SingleUse OnePlace OwnGrantsOnly NoIssuing"
+PROPS = "Justified SingleUse OnePlace OwnGrantsOnly NoIssuing AdmittedOnlyWhenEnabled"
 TYPES = {"shell": 1, "cmd": 2, "localpf": 3, "remotepf": 4}
 
-def histories(num, seed, sw):
-    cfg = CFG % ("SimSpec", 4, 4, sw["CheckStart"], sw["CheckIssue"], sw["CheckPF"], "Emit")
+def histories(num, seed, sw, toggles=1):
+    cfg = CFG % ("SimSpec", 4, 4, sw["CheckStart"], sw["CheckIssue"], sw["CheckPF"], toggles, "Emit")
     r = lib.tlc("MC_HopGrants", "sim.cfg", workers=1, simulate="num=%d" % num, depth=15, tlc_seed=seed, timeout=900, files={"sim.cfg": cfg})
     out, seen = [], set()
     for m in re.finditer(r'<<"BEH", "(.*)">>', r.out):
@@ -41,6 +41,8 @@ def desc(h):
             g = o["g"]; parts.append("add g%d=%s[%d,%d)%s/%s" % (g["id"], kind_s(g), g["start"], g["exp"], g["user"], g["key"]))
         elif o["op"] == "tick":
             parts.append("t=%d" % o["now"])
+        elif o["op"] == "toggle":
+            parts.append("grants %s" % ("on" if o["enabled"] else "OFF"))
         elif o["op"] == "connect":
             parts.append("connect s%d=%s/%s" % (o["sid"], o["user"], o["key"]))
         else:
@@ -57,14 +59,19 @@ def judge(h, res):
     sess = {}            # sid -> dict(user,key,admitted, pool: grants moved in at admission)
     store = {}           # (user,key) -> list of grants
     used = set()
+    enabled = True
     d = desc(h)
     for o, r in zip(h, res):
         if o["op"] == "add":
-            g = dict(o["g"]); grants.append(g); store.setdefault((g["user"], g["key"]), []).append(g)
+            g = dict(o["g"]); grants.append(g); store.setdefault((g["user"], g["key"]), []).append(g)   # the model adds only while enabled
         elif o["op"] == "tick":
             now = o["now"]
+        elif o["op"] == "toggle":
+            enabled = o["enabled"]
         elif o["op"] == "connect":
             pool = store.get((o["user"], o["key"]), [])
+            if r["admitted"] and not enabled:
+                out.append("a key without an authorized_keys entry was admitted through a stored grant while authorization grants were switched off | %s" % d)
             if r["admitted"]:
                 if not pool:
                     out.append("a key was admitted for a user although no grant was stored for that user and key | %s" % d)
@@ -91,12 +98,12 @@ def run(v, tier, replay):
     v.assumptions += ["palette of 8 grants (same command twice, a command text that is a prefix of another, a grant effective later, one expiring early, same key for another user, same user with another key, port forwarding, two shells); clock 0..3",
                       "a request that passed the grant check is recognised by the failure of the next step (user lookup is made to fail, nothing is executed); port forwarding by the success byte; grant issuing by an Intent Confirmation",
                       "refusals are never violations; a model/code difference that no predicate explains ends the check with exit 2"]
-    r = lib.tlc("MC_HopGrants", "mc.cfg", timeout=900, files={"mc.cfg": CFG % ("MCSpec", 3, 3, "TRUE", "TRUE", "TRUE", PROPS)})
+    r = lib.tlc("MC_HopGrants", "mc.cfg", timeout=900, files={"mc.cfg": CFG % ("MCSpec", 3, 3, "TRUE", "TRUE", "TRUE", 1, PROPS)})
     lib.tlc_must_pass(r, "HopGrants"); v.add_tlc("HopGrants, all checks on: C07 invariants (exhaustive: 3 grants of 8, 2 sessions, 3 requests, 4 clock values)", r)
     for sw, what in ((dict(CheckStart="FALSE", CheckIssue="TRUE", CheckPF="TRUE"), "start of the validity window ignored"),
                      (dict(CheckStart="TRUE", CheckIssue="FALSE", CheckPF="TRUE"), "delegate session may issue grants"),
                      (dict(CheckStart="TRUE", CheckIssue="TRUE", CheckPF="FALSE"), "port forwarding unchecked")):
-        r = lib.tlc("MC_HopGrants", "bad.cfg", timeout=600, files={"bad.cfg": CFG % ("MCSpec", 3, 3, sw["CheckStart"], sw["CheckIssue"], sw["CheckPF"], PROPS)})
+        r = lib.tlc("MC_HopGrants", "bad.cfg", timeout=600, files={"bad.cfg": CFG % ("MCSpec", 3, 3, sw["CheckStart"], sw["CheckIssue"], sw["CheckPF"], 0, PROPS)})
         v.add_tlc("HopGrants with %s: must violate" % what, r)
         if r.kind != "invariant":
             raise lib.Inconclusive("self-test: variant '%s' is not rejected (%s)" % (what, r.kind))
